@@ -167,7 +167,7 @@ Drops(dr, fn) == dr.n # 0 /\ fn % dr.period = 0
 
 Delivery(src, dst, m, dr) ==
   LET s == trx[src] d == trx[dst]
-      srcNope == s.muted                       \* burst stripped by the forwarder
+      srcNope == s.muted \/ ~m.burst.has      \* burst stripped by the forwarder, or a header-only message from L1
       dropped == ~d.muted /\ ~srcNope /\ Drops(dr, m.fn)
       nope == d.muted \/ srcNope \/ dropped
       dr2 == IF dropped THEN [dr EXCEPT !.n = @ - 1] ELSE dr
